@@ -3,6 +3,8 @@ package parser
 // C07 — qualified device name grammar: exact, total, round-trips.
 // Oracle: the property's regular language, transcribed from the statement (not from the code).
 
+import "strings"
+
 const (
 	vVendorRe = `[A-Za-z]([A-Za-z0-9_.-]*[A-Za-z0-9])?`
 	vNameRe   = `[A-Za-z0-9]([A-Za-z0-9_.:-]*[A-Za-z0-9])?`
@@ -63,18 +65,26 @@ func H_C07_compose() {
 
 func H_C07_split() {
 	s := nondetString("s", vparam("N"))
+	// reference: split at the FIRST '=' and, left of it, at the FIRST '/'; all three parts non-empty
+	i := strings.IndexByte(s, '=')
+	j := strings.IndexByte(s, '/')
+	okRef := i > 0 && i < len(s)-1 && j > 0 && j < i-1
 	v, c, n := ParseDevice(s)
+	vassert("split-iff-three-nonempty-parts", (v != "") == okRef)
 	if v == "" {
 		vreach("unsplit")
 		vassert("unsplit-verbatim", c == "" && n == s)
 	} else {
 		vreach("split")
 		vassert("split-recompose", c != "" && n != "" && v+"/"+c+"="+n == s)
+		vassert("split-at-first-separators", !strings.Contains(v, "/") && !strings.Contains(v, "=") && !strings.Contains(c, "="))
 	}
 	qv, qc := ParseQualifier(s)
+	vassert("qualifier-split-iff-two-nonempty-parts", (qv != "") == (j > 0 && j < len(s)-1))
 	if qv == "" {
 		vassert("qualifier-verbatim", qc == s)
 	} else {
 		vassert("qualifier-recompose", qc != "" && qv+"/"+qc == s)
+		vassert("qualifier-split-at-first-slash", !strings.Contains(qv, "/"))
 	}
 }
